@@ -7,6 +7,8 @@ package encoding
 //@   safety[C11]
 //@   requires s != nil && el != nil && el.Value != nil
 //@   modifies fix.Value.*
+//@   forall o ref
+//@   ensures[C03] @rawclean imp(istype(o, *fix.Raw), o.(*fix.Raw).value == old(o.(*fix.Raw).value) || noSOH(o.(*fix.Raw).value))
 
 //@ func splitGroup(line []byte, firstTag []byte) (array [][]byte)
 //@   safety[C11]
@@ -23,16 +25,21 @@ package encoding
 //@   requires s != nil && wfItem(fixItem)
 //@   unfold wf_item(fixItem)
 //@   modifies fix.Value.*, fix.Group.items
+//@   forall o ref
+//@   ensures[C03] @rawclean imp(istype(o, *fix.Raw), o.(*fix.Raw).value == old(o.(*fix.Raw).value) || noSOH(o.(*fix.Raw).value))
 //@   call unmarshal#1: lemma wf_kv_intro(noKv)
 //@   loop 1:
 //@     invariant[C11] 0 <= i
+//@     invariant[C03] imp(istype(o, *fix.Raw), o.(*fix.Raw).value == old(o.(*fix.Raw).value) || noSOH(o.(*fix.Raw).value))
 //@     decreases cnt - i
 //@   loop 2:
 //@     invariant[C11] 0 <= iter
+//@     invariant[C03] imp(istype(o, *fix.Raw), o.(*fix.Raw).value == old(o.(*fix.Raw).value) || noSOH(o.(*fix.Raw).value))
 //@     decreases len(entry) - iter
 //@     lemma wf_seq_at(entry, iter); wf_item(entry[iter])
 //@   loop 3:
 //@     invariant[C11] 0 <= iter
+//@     invariant[C03] imp(istype(o, *fix.Raw), o.(*fix.Raw).value == old(o.(*fix.Raw).value) || noSOH(o.(*fix.Raw).value))
 //@     decreases len(component) - iter
 //@     lemma wf_seq_at(component, iter); wf_item(component[iter])
 
@@ -41,18 +48,37 @@ package encoding
 //@   terminates[C11]
 //@   requires wfSeq(msg)
 //@   modifies fix.Value.*, fix.Group.items
+//@   forall o ref
+//@   ensures[C03] @rawclean imp(istype(o, *fix.Raw), o.(*fix.Raw).value == old(o.(*fix.Raw).value) || noSOH(o.(*fix.Raw).value))
 //@   loop 1:
 //@     invariant[C11] 0 <= iter
+//@     invariant[C03] imp(istype(o, *fix.Raw), o.(*fix.Raw).value == old(o.(*fix.Raw).value) || noSOH(o.(*fix.Raw).value))
 //@     decreases len(msg) - iter
 //@     lemma wf_seq_at(msg, iter)
+
+//@ lemma[C03] fit_prefix_suffix(d string, a1 string, a2 string, b string): requires hasPrefix(d, cat(a1, SOH, a2, SOH)) && hasSuffix(d, cat(SOH, b, SOH)) && noSOH(a2) && noSOH(b) && len(b) > 0 && a2 != b ensures len(d) >= len(a1) + len(a2) + len(b) + 3
+//@ lemma[C03] split3(d string, h string, t string): requires hasPrefix(d, h) && hasSuffix(d, t) && len(d) >= len(h) + len(t) ensures d == cat(h, sub(d, len(h), len(d) - len(t)), t)
 
 // C03: validateRaw accepts only correctly framed byte strings. bs, bl, cs are
 // the three KeyValues the function builds and scans; whatever values the scan
 // found, acceptance implies that d decomposes exactly into them.
 //@ func validateRaw(msg messages.Builder, d []byte, strict bool) (err error)
 //@   safety[C11]
-//@   requires msg != nil
-//@   call unmarshalItems#1: lemma wf_kv_intro(bs); wf_kv_intro(bl); wf_kv_intro(cs); wf_seq_3(arg0)
+//@   requires msg != nil && tagBL(msg) != tagCS(msg)
+//@   call unmarshalItems#1:
+//@     lemma wf_kv_intro(bs); wf_kv_intro(bl); wf_kv_intro(cs); wf_seq_3(arg0)
+//@     inst o = bs.Value
+//@     inst o = bl.Value
+//@     inst o = cs.Value
+//@     after lemma wireV_raw(bs.Value); wireV_raw(bl.Value); wireV_raw(cs.Value)
+//@     assert[C03] @cleanbl noSOH(string(wireKV(bl)))
+//@     assert[C03] @cleancs noSOH(string(wireKV(cs)))
+//@     assert[C03] @distinct imp(!isnil(wireKV(bl)) && !isnil(wireKV(cs)), string(wireKV(bl)) != string(wireKV(cs)))
+//@   call CalcCheckSum#1:
+//@     after lemma fit_prefix_suffix(string(d), string(wireKV(bs)), string(wireKV(bl)), string(wireKV(cs))); bsum_snoc(string(d), len(d) - len(wireKV(cs)) - 2)
+//@     assert[C03] @arg string(arg0) == sub(string(d), 0, len(d) - len(wireKV(cs)) - 2)
+//@     assert[C03] @sohpos len(d) - len(wireKV(cs)) - 2 >= 0 && code(string(d), len(d) - len(wireKV(cs)) - 2) == 1
+//@     assert[C03] @sum bsum(sub(string(d), 0, len(d) - len(wireKV(cs)) - 1)) == bsum(string(arg0)) + 1
 //@   witness pos = len(d) - len(wireKV(cs)) - 1
 //@   witness R = sub(string(d), len(wireKV(bs)) + len(wireKV(bl)) + 2, pos)
 //@   witness L = from(string(wireKV(bl)), len(bl.Key) + 1)
@@ -61,3 +87,4 @@ package encoding
 //@   ensures[C03] @length imp(err == nil, isint(L) && atoi(L) == len(R))
 //@   ensures[C03] @checksum imp(err == nil, from(string(wireKV(cs)), len(cs.Key) + 1) == digits3(bsum(sub(string(d), 0, pos)) % 256))
 //@   lemma wireV_raw(bs.Value); wireV_raw(bl.Value); wireV_raw(cs.Value); bsum_snoc(string(d), pos - 1); bsum_nonneg(sub(string(d), 0, pos - 1))
+//@   lemma fit_prefix_suffix(string(d), string(wireKV(bs)), string(wireKV(bl)), string(wireKV(cs))); split3(string(d), cat(wireKV(bs), SOH, wireKV(bl), SOH), cat(wireKV(cs), SOH))
